@@ -10,15 +10,6 @@ Proof. unfold upd. now rewrite var_eqb_refl. Qed.
 Lemma upd_other s v n x : x <> v -> upd s v n x = s x.
 Proof. unfold upd. intros H. destruct (var_eqb_spec x v); congruence. Qed.
 
-Lemma find_none_intro {A} (f : A -> bool) l : (forall x, In x l -> f x = false) -> find f l = None.
-Proof. induction l as [|a l IH]; simpl; intros H; [reflexivity|]. rewrite (H a) by now left. apply IH. intros x Hx. apply H. now right. Qed.
-
-Lemma NoDup_app_snoc {A} (l : list A) u : NoDup l -> ~ In u l -> NoDup (l ++ [u]).
-Proof. induction l as [|x l IHl]; simpl; intros Hn Hu. { repeat constructor; auto. }
-  inversion Hn; subst. constructor.
-  - intros Hc; apply in_app_or in Hc; destruct Hc as [Hc|[Hc|[]]]; [auto|subst; apply Hu; now left].
-  - apply IHl; auto. Qed.
-
 (* invariant of the save loop: the saved table holds the ORIGINAL name of each saved Var, once; unsaved Vars are untouched *)
 Definition SaveInv (s0 : store) (pre : list (var * option string)) (s : store) : Prop :=
   NoDup (map fst pre) /\ (forall v n, In (v, n) pre -> n = s0 v) /\ (forall x, ~ In x (map fst pre) -> s x = s0 x).
